@@ -286,6 +286,31 @@ theorem C04_dispatch_in_candidates (select : List Nat → Option Nat) (outcome :
     ∀ x ∈ selectedList (execute select outcome eps).1, x ∈ eps :=
   (execute_inv select outcome eps hsel hnd).2.1
 
+private theorem length_le_of_nodup_subset : ∀ (l m : List Nat), l.Nodup → (∀ x ∈ l, x ∈ m) → l.length ≤ m.length
+  | [], _, _, _ => Nat.zero_le _
+  | a :: l', m, hn, hs => by
+    have hn' := List.nodup_cons.mp hn
+    have ha : a ∈ m := hs a (List.mem_cons_self ..)
+    have hsub : ∀ x ∈ l', x ∈ m.erase a := by
+      intro x hx
+      have hxm := hs x (List.mem_cons_of_mem _ hx)
+      have hne : x ≠ a := fun h => hn'.1 (h ▸ hx)
+      exact (List.mem_erase_of_ne hne).mpr hxm
+    have ih := length_le_of_nodup_subset l' (m.erase a) hn'.2 hsub
+    have hlen : (m.erase a).length = m.length - 1 := List.length_erase_of_mem ha
+    have hpos : 0 < m.length := List.length_pos_of_mem ha
+    simp only [List.length_cons]
+    omega
+
+/-- **A request costs at most one attempt per candidate**: the number of dispatches never exceeds the number of candidates
+    (no endless retrying, whatever the balancer and the faults do). -/
+theorem C04_attempts_bounded (select : List Nat → Option Nat) (outcome : Nat → Attempt) (eps : List Nat)
+    (hsel : SelectContract select) (hnd : eps.Nodup) :
+    (selectedList (execute select outcome eps).1).length ≤ eps.length := by
+  have hn := C04_at_most_once select outcome eps hsel hnd
+  have hs := C04_dispatch_in_candidates select outcome eps hsel hnd
+  exact length_le_of_nodup_subset _ _ hn hs
+
 /-- **An endpoint that failed at connection level is taken out of rotation**: every attempt that failed
     with a connection-level error before any response byte is followed by a mark-offline write. -/
 theorem C04_marks_offline (select : List Nat → Option Nat) (outcome : Nat → Attempt) (eps : List Nat)
